@@ -8,6 +8,7 @@ pub mod hist;
 pub mod known;
 pub mod kinds;
 pub mod rng;
+pub mod sched;
 pub mod tt;
 pub mod mon;
 
